@@ -128,6 +128,29 @@ Proof.
   exists c, t. split; auto. apply (dec_N_chars n). rewrite E. left; reflexivity.
 Qed.
 
+(** the decimal numerals [dec_N] prints are canonical: no leading zero *)
+Lemma udigits_nonzero_head f : forall n, 0 < n -> n < 2 ^ N.of_nat f ->
+  exists c t, udigits (S f) n = c :: t /\ c <> 48.
+Proof.
+  induction f as [|f IH]; intros n P Hn.
+  - change (N.of_nat 0) with 0 in Hn. rewrite N.pow_0_r in Hn. lia.
+  - rewrite (udigits_S (S f)). destruct (N.ltb_spec n 10) as [L|L].
+    + exists (48 + n), []. split; [reflexivity|lia].
+    + assert (Hd : n / 10 < 2 ^ N.of_nat f).
+      { apply N.div_lt_upper_bound; [lia|]. rewrite Nat2N.inj_succ, N.pow_succ_r' in Hn. lia. }
+      assert (Pd : 0 < n / 10) by (apply N.div_str_pos; lia).
+      destruct (IH _ Pd Hd) as (c & t & E & NZ). rewrite E. exists c, (t ++ [48 + n mod 10]). auto.
+Qed.
+
+
+Lemma dec_N_canonical n : n <> 0 -> exists c t, dec_N n = c :: t /\ c <> 48 /\ forallb is_digit (c :: t) = true.
+Proof.
+  intro NZ. destruct (dec_N_spec n) as (_ & D & _).
+  assert (B : n < 2 ^ N.of_nat (N.to_nat (N.size n))) by (rewrite N2Nat.id; apply N.size_gt).
+  destruct (udigits_nonzero_head _ n ltac:(lia) B) as (c & t & E & NZc).
+  exists c, t. unfold dec_N in *. rewrite E in *. auto.
+Qed.
+
 (** * Induction over nested values *)
 Section BvalInd.
   Variable P : bval -> Prop.
@@ -647,3 +670,188 @@ Lemma bencode_nonvacuous :
   wf m1 = true /\ wf m2 = true /\
   decode_all (firstn 21 (concat (map encode [m1; m2]))) = Some ([m1], [105; 49]).
 Proof. vm_compute. auto. Qed.
+
+(** * The numerals [encode] prints are canonical BEP-3 numerals with the right value *)
+Lemma numeral_canonical z : canonical_numeral (dec_Z z) = true /\ numeral_value (dec_Z z) = z.
+Proof.
+  unfold dec_Z. destruct (Z.ltb_spec z 0) as [L|L].
+  - assert (NZ : Z.abs_N z <> 0) by lia.
+    destruct (dec_N_canonical _ NZ) as (c & t & E & NZc & D).
+    destruct (dec_N_spec (Z.abs_N z)) as (V & _ & _).
+    rewrite E in *. split.
+    + unfold canonical_numeral. change (45 =? 48) with false. change (45 =? 45) with true. cbv iota.
+      simpl in D. apply andb_true_iff in D as [Dc Dt]. rewrite Dc, Dt.
+      apply N.eqb_neq in NZc. rewrite NZc. reflexivity.
+    + unfold numeral_value. change (45 =? 45) with true. cbv iota.
+      change (digits_value (c :: t)) with (uval_acc 0 (c :: t)). rewrite V, N2Z.inj_abs_N. lia.
+  - destruct (dec_N_spec (Z.abs_N z)) as (V & D & NE).
+    destruct (N.eq_dec (Z.abs_N z) 0) as [Z0|NZ].
+    + rewrite Z0 in *. split; [reflexivity|]. vm_compute. lia.
+    + destruct (dec_N_canonical _ NZ) as (c & t & E & NZc & _). rewrite E in *.
+      pose proof D as D'. simpl in D'. apply andb_true_iff in D' as [Dc Dt].
+      pose proof (digit_range c Dc) as R.
+      assert (N45 : (c =? 45) = false) by (apply N.eqb_neq; lia).
+      apply N.eqb_neq in NZc. split.
+      * unfold canonical_numeral. rewrite NZc, N45, Dc, Dt. reflexivity.
+      * unfold numeral_value. rewrite N45.
+        change (digits_value (c :: t)) with (uval_acc 0 (c :: t)). rewrite V, N2Z.inj_abs_N. lia.
+Qed.
+
+(** * Dict entries in any order: [decode (encode v ++ r)] is the key-sorted form of [v] *)
+From Coq Require Import Permutation Sorted.
+
+Section SortFacts.
+  Context {A : Type}.
+  Variable lt : A -> A -> bool.
+  Hypothesis lt_asym : forall a b, lt a b = true -> lt b a = false.
+
+  Fixpoint lsorted (l : list A) : bool :=
+    match l with
+    | a :: ((b :: _) as t) => negb (lt b a) && lsorted t
+    | _ => true
+    end.
+
+  Lemma sort_id l : lsorted l = true -> Sort.sort lt l = l.
+  Proof.
+    induction l as [|x l IH]; [reflexivity|]. intro H. simpl.
+    destruct l as [|y r]; [reflexivity|].
+    cbn [lsorted] in H. apply andb_true_iff in H as [Hxy Hl].
+    rewrite (IH Hl). simpl. apply negb_true_iff in Hxy. rewrite Hxy. reflexivity.
+  Qed.
+
+  Lemma insert_lsorted x l : lsorted l = true -> lsorted (Sort.insert lt x l) = true.
+  Proof.
+    induction l as [|y r IH]; intro H; [reflexivity|].
+    simpl. destruct (lt y x) eqn:E.
+    - specialize (IH ltac:(destruct r; [reflexivity|cbn [lsorted] in H; apply andb_true_iff in H as [_ H]; exact H])).
+      destruct r as [|z r'].
+      + simpl. rewrite (lt_asym _ _ E). reflexivity.
+      + cbn [lsorted] in H. apply andb_true_iff in H as [Hyz Hr].
+        simpl in *. destruct (lt z x) eqn:E2.
+        * cbn [lsorted]. rewrite Hyz. exact IH.
+        * cbn [lsorted]. rewrite (lt_asym _ _ E). simpl. exact IH.
+    - cbn [lsorted]. rewrite E. simpl. exact H.
+  Qed.
+
+  Lemma sort_lsorted l : lsorted (Sort.sort lt l) = true.
+  Proof. induction l as [|x l IH]; [reflexivity|]. simpl. apply insert_lsorted, IH. Qed.
+
+  Lemma sort_idem l : Sort.sort lt (Sort.sort lt l) = Sort.sort lt l.
+  Proof. apply sort_id, sort_lsorted. Qed.
+End SortFacts.
+
+(** sorting commutes with a map that preserves the order *)
+Lemma insert_map {A B} (ltA : A -> A -> bool) (ltB : B -> B -> bool) (g : A -> B) :
+  (forall a b, ltB (g a) (g b) = ltA a b) ->
+  forall x l, map g (Sort.insert ltA x l) = Sort.insert ltB (g x) (map g l).
+Proof.
+  intros H x l. induction l as [|y r IH]; [reflexivity|]. simpl. rewrite H.
+  destruct (ltA y x); simpl; [rewrite IH|]; reflexivity.
+Qed.
+
+Lemma sort_map {A B} (ltA : A -> A -> bool) (ltB : B -> B -> bool) (g : A -> B) :
+  (forall a b, ltB (g a) (g b) = ltA a b) ->
+  forall l, map g (Sort.sort ltA l) = Sort.sort ltB (map g l).
+Proof.
+  intros H l. induction l as [|x l IH]; [reflexivity|]. simpl.
+  rewrite (insert_map ltA ltB g H), IH. reflexivity.
+Qed.
+
+Lemma key_lt_asym a b : key_lt a b = true -> key_lt b a = false.
+Proof. apply str_ltb_asym. Qed.
+Lemma val_lt_asym a b : val_lt a b = true -> val_lt b a = false.
+Proof. apply str_ltb_asym. Qed.
+
+Lemma encode_norm v : encode (norm v) = encode v.
+Proof.
+  induction v using bval_ind'; try reflexivity.
+  - simpl. f_equal. f_equal. f_equal. rewrite map_map. apply map_ext_in.
+    intros x I. rewrite Forall_forall in H. auto.
+  - simpl. f_equal. f_equal. f_equal. f_equal.
+    unfold sort_vals, sort_pairs.
+    rewrite (sort_map val_lt key_lt (fun kv => (fst kv, encode (snd kv)))) by reflexivity.
+    rewrite map_map. simpl.
+    rewrite (map_ext_in _ (fun kv => (fst kv, encode (snd kv)))).
+    + apply (sort_idem key_lt key_lt_asym).
+    + intros kv I. rewrite Forall_forall in H. rewrite (H kv I). reflexivity.
+Qed.
+
+(** sorted with distinct keys is strictly sorted *)
+Lemma distinctb_perm l1 l2 : Permutation l1 l2 -> distinctb l1 = true -> distinctb l2 = true.
+Proof.
+  assert (EX : forall x l l', Permutation l l' -> existsb (str_eqb x) l = existsb (str_eqb x) l').
+  { intros x l l' P. induction P; simpl; try congruence.
+    destruct (str_eqb x y), (str_eqb x x0); reflexivity. }
+  intro P. induction P; simpl; intro H; auto.
+  - apply andb_true_iff in H as [H1 H2]. rewrite <- (EX x _ _ P), H1. simpl. auto.
+  - apply andb_true_iff in H as [H1 H2]. apply andb_true_iff in H2 as [H2 H3].
+    simpl in H1. apply negb_true_iff in H1. apply orb_false_iff in H1 as [H0 H1].
+    rewrite H1, H3. apply negb_true_iff in H2. rewrite H2.
+    assert (E : str_eqb x y = false).
+    { destruct (str_eqb x y) eqn:E; [|reflexivity]. apply str_eqb_eq in E. subst.
+      rewrite str_eqb_refl in H0. discriminate. }
+    rewrite E. reflexivity.
+Qed.
+
+Lemma keys_sorted_of ks : lsorted str_ltb ks = true -> distinctb ks = true -> keys_sorted ks = true.
+Proof.
+  induction ks as [|k t IH]; [reflexivity|]. intros S D.
+  simpl in D. apply andb_true_iff in D as [D1 D2].
+  assert (St : lsorted str_ltb t = true).
+  { destruct t; [reflexivity|]. cbn [lsorted] in S. apply andb_true_iff in S as [_ S]. exact S. }
+  specialize (IH St D2). simpl. rewrite IH, andb_true_r.
+  (* k below every later key: below the next one, which is below the rest *)
+  destruct t as [|k2 t2]; [reflexivity|].
+  cbn [lsorted] in S. apply andb_true_iff in S as [S1 _]. apply negb_true_iff in S1.
+  simpl in D1. apply negb_true_iff in D1. apply orb_false_iff in D1 as [D1 _].
+  assert (L : str_ltb k k2 = true).
+  { destruct (str_ltb k k2) eqn:E; [reflexivity|].
+    pose proof (str_ltb_total k k2 E S1). subst. rewrite str_eqb_refl in D1. discriminate. }
+  simpl. rewrite L. simpl.
+  simpl in IH. apply andb_true_iff in IH as [IH _].
+  rewrite forallb_forall in *. intros x I. eapply str_ltb_trans; eauto.
+Qed.
+
+Lemma lsorted_map_fst (l : list (bytes * bval)) : lsorted val_lt l = lsorted str_ltb (map fst l).
+Proof.
+  induction l as [|a l IH]; [reflexivity|]. destruct l as [|b r]; [reflexivity|].
+  cbn [lsorted map] in *. rewrite IH. reflexivity.
+Qed.
+
+Lemma wf_norm v : dkeys v = true -> wf (norm v) = true.
+Proof.
+  induction v using bval_ind'; intro D; simpl in *; try assumption; try reflexivity.
+  - rewrite forallb_forall in *. intros x I. apply in_map_iff in I as (y & <- & I).
+    rewrite Forall_forall in H. auto.
+  - apply andb_true_iff in D as [D1 D2]. apply andb_true_iff. split.
+    + apply keys_sorted_of.
+      * rewrite <- lsorted_map_fst. apply (sort_lsorted val_lt val_lt_asym).
+      * eapply distinctb_perm; [|exact D1].
+        unfold sort_vals. rewrite (Permutation_map fst (Sort.sort_perm val_lt _)).
+        rewrite map_map. reflexivity.
+    + rewrite forallb_forall. intros kv I.
+      unfold sort_vals in I. apply (Permutation_in _ (Sort.sort_perm val_lt _)) in I.
+      apply in_map_iff in I as (y & <- & I). simpl.
+      rewrite Forall_forall in H. rewrite forallb_forall in D2. auto.
+Qed.
+
+Theorem bencode_roundtrip_any_order v r : dkeys v = true -> decode (encode v ++ r) = DVal (norm v) r.
+Proof. intro D. rewrite <- encode_norm. apply bencode_roundtrip, wf_norm, D. Qed.
+
+(** ... hence for what Lisp hands to [encode] *)
+Theorem bencode_coercion x r : dkeys (inj x) = true -> decode (encode_l x ++ r) = DVal (norm (inj x)) r.
+Proof. apply bencode_roundtrip_any_order. Qed.
+
+Lemma wf_dkeys v : wf v = true -> dkeys v = true.
+Proof.
+  induction v using bval_ind'; intro W; simpl in *; try assumption; try reflexivity.
+  - rewrite forallb_forall in *. rewrite Forall_forall in H. auto.
+  - apply andb_true_iff in W as [K W]. apply andb_true_iff. split.
+    + clear - K. induction (map fst m) as [|k t IH]; [reflexivity|]. simpl in *.
+      apply andb_true_iff in K as [K1 K2]. rewrite (IH K2), andb_true_r. apply negb_true_iff.
+      clear - K1. induction t as [|x t IH]; [reflexivity|]. simpl in *.
+      apply andb_true_iff in K1 as [A B]. rewrite (IH B), orb_false_r.
+      destruct (str_eqb k x) eqn:E; [|reflexivity]. apply str_eqb_eq in E. subst.
+      rewrite str_ltb_irrefl in A. discriminate.
+    + rewrite forallb_forall in *. rewrite Forall_forall in H. auto.
+Qed.
